@@ -375,8 +375,11 @@ def _check(impl, scn, st=None):
             if bad: blocked = True; continue
             if end == "unknown":
                 blocked = True; continue
+            # a write that fails because the server has already closed (as it had to, on a request
+            # that the client's TCP had taken in full) takes nothing away from what must arrive
+            send_ok = not c.get("send_err") or (end == "closed" and consumed <= len(c["sent"]))
             complete = (quiescent and not lossy and c["reading"] and not c["closed_by_client"] and c["rerr"] is None
-                        and not c.get("send_err") and (end == "closed" or c["pending"] == 0))
+                        and send_ok and (end == "closed" or c["pending"] == 0))
             if complete:
                 cnt("complete")
                 if c["nsend"] > 1: cnt("complete_cut")
